@@ -345,6 +345,63 @@ CHECKS.update({
 PENDING = {}   # id -> reason while a check is not built yet
 
 
+# what later rounds added to a check: (appended to technique, appended to level text)
+ADDENDA = {
+    "C05": ("", " Further fault kinds: a stray character outside the character set, an "
+            "ASCII NUL (a reserved character of the default grammar), units or quoted "
+            "strings that lose their closer while the text goes on, a comment delimiter "
+            "glued to a bare word, a changed begin-keyword form; every single fault at "
+            "every position of five base documents and every ordered pair of faults on "
+            "three small ones."),
+    "C06": ("; thorough tier adds coverage-guided fuzzing (atheris/libFuzzer) with the "
+            "oracle inside the target",
+            " Also enumerated: every curated borderline lexeme in 12 statement contexts, "
+            "and every sequence of <= 4 / 5 items over a vocabulary of '#' comments, dash "
+            "continuations and '#' characters that start no comment."),
+    "C07": ("; character-level mutants of all sources; thorough tier adds coverage-guided "
+            "fuzzing (atheris/libFuzzer) of raw text with this oracle inside the target",
+            " Mutants (delete / splice a significant lexeme / duplicate / swap / join "
+            "lines) of generated, pool and corpus texts are kept when the loader still "
+            "accepts them."),
+    "C08": ("", " Parameters named like the value keywords (TRUE, null, ...) and 0-3 "
+            "dash-continued strings ahead of the gaps are part of the domain."),
+    "C09": ("; hand-over ways include os.DirEntry / __fspath__ paths, streams already read "
+            "from, and OS pipes (streams that cannot be rewound); dump targets include "
+            "tempfile wrappers and a codecs writer",
+            " Labels also come as UTF-8 with multi-byte runs that straddle 8192-byte "
+            "blocks, with '#' comments, and with CR LF / bare CR / mixed line ends; the "
+            "token-position oracle covers every lexer pass of a load, not only the parse."),
+    "C10": ("; pair arguments handed over as lists, tuples, one-shot iterators (generator, "
+            "zip, iter), items()-only and keys()-only objects and views of another "
+            "container; the container rebuilt through its constructor and copy()", ""),
+    "C11": ("", " Each container may have gone through 1-5 C10 operations (inserts, "
+            "deletions, pops ...) before the copy is taken."),
+    "C15": ("", " 24 basic positions, among them the very first and the very last "
+            "character of the text, glued to comments, after a dash continuation and on "
+            "later lines of multi-line lexemes, plus every gap of a 38-token label."),
+    "C16": ("; soak runs: one instance per parser variant and encoder gets 400 (quick) / "
+            "5000 (thorough) mostly failing calls, each repeated on a fresh instance",
+            " Fixed texts include ones that end or fail 45-120 levels deep in nested "
+            "sequences, sets and blocks."),
+    "C18": ("", " One document in four carries a sequence of reals that are equal in value "
+            "and differ in spelling (2.5, 2.50, 25.0e-1 ...), so that a real_cls that keeps "
+            "the written text must receive each of them."),
+    "C19": ("; character-level mutants and - thorough tier - coverage-guided atheris "
+            "inputs, kept when the default loader accepts them without repair", ""),
+    "C20": ("", " Files also come with a UTF-8 byte order mark, undecodable bytes or NULs "
+            "after the label, and CR line ends (bytes are carried in cases through "
+            "surrogateescape)."),
+    "C01": ("", " The generators also produce names no dialect can write (an encoder has to "
+            "refuse them), keyword-prefixed words, label-like multi-line strings, 4 kB "
+            "strings, units with line breaks or delimiters, boolean magnitudes and a "
+            "rule-based tzinfo; a width sweep writes small modules at every width."),
+    "C12": ("", " Same widened module domain as C01 (near-miss names, units with line "
+            "breaks, 4 kB strings)."),
+    "C14": ("", " Encode direction includes a rule-based tzinfo (offset depends on the "
+            "date; none for a bare time)."),
+}
+
+
 def main():
     props = [json.loads(l) for l in open(os.path.join(HERE, "properties.jsonl"))]
     checks = []
@@ -353,6 +410,8 @@ def main():
         pid = p["id"]
         if pid in CHECKS:
             cat, tech, text, note, ref = CHECKS[pid]
+            tech += ADDENDA.get(pid, ("", ""))[0]
+            text += ADDENDA.get(pid, ("", ""))[1]
             checks.append(dict(
                 property_id=pid,
                 quick_cmd=f"./check {pid} --tier quick",
